@@ -131,8 +131,12 @@ def measure_screen(ctx):
     up[a1] = 1.0
     screen = sp.geometry.Polygon(q, up, nn)
     r = sp.DirectionalRadiosityFast.from_polygon(walls + [screen], 1.0)
-    for _ in range(3):
-        src = scenes.gen_point_inside(rng, sides, margin=0.1)
+    srcs = [scenes.gen_point_inside(rng, sides, margin=0.1) for _ in range(3)]
+    # ... and the last source moved along ONE axis only, to the other side of the screen's plane
+    moved = srcs[-1].copy()
+    moved[ax] = float(np.clip(2 * o[ax] - moved[ax], 0.1, sides[ax] - 0.1))
+    srcs.append(moved)
+    for src in srcs:
         if abs(src[ax] - o[ax]) < 0.05:
             continue
         r.init_source_energy(scenes.coords(src))
